@@ -2,6 +2,7 @@ package main
 
 import (
 	"fmt"
+	"math"
 	"math/big"
 	"strconv"
 	"strings"
@@ -87,7 +88,15 @@ func c12Decimal(c *hx.Ctx, r *hx.RNG) {
 	var hasRes, ok bool
 	var b int
 	var err error
-	pi := hx.Try(func() { res, hasRes, b, ok, err = parseVia(via, z, s, base, uint(p), mode) })
+	precArg := uint(p)
+	if via == 2 && r.Chance(6) {
+		// ParseDecimal takes its precision as a uint: beyond MaxPrec it is MaxPrec (SetPrec's documented clamp), not the
+		// low 32 bits of the argument
+		precArg = []uint{1 << 32, 1<<32 + 7, math.MaxUint64, decimal.MaxPrec + 1, 1<<40 + uint(r.Range(1, 99))}[r.Intn(5)]
+		p = decimal.MaxPrec
+		what += fmt.Sprintf(" (precision argument %d)", precArg)
+	}
+	pi := hx.Try(func() { res, hasRes, b, ok, err = parseVia(via, z, s, base, precArg, mode) })
 	c.Eval(hx.HashStr(what), true, "decimal/"+viaNames[via])
 	if c.WantSample("decimal/" + viaNames[via]) {
 		c.Sample("decimal/"+viaNames[via], what)
@@ -565,13 +574,25 @@ func c12ScanDifferential(c *hx.Ctx, s string) {
 	z := new(decimal.Decimal).SetPrec(80)
 	bf := new(big.Float).SetPrec(600)
 	var e1, e2 error
-	if pi := hx.Try(func() { _, e1 = fmt.Sscan(s, z) }); pi != nil {
-		c.Violate("panic", fmt.Sprintf("Sscan(%q): %s panic %q", s, pi.Class, pi.Text), "")
+	// through Sscan (verb 'v'), or through Sscanf with one of the floating-point verbs: *big.Float's Scan reads the same
+	// base-0 grammar whatever the verb, and so must this one
+	format := []string{"", "", "%v", "%b", "%e", "%E", "%f", "%F", "%g", "%G"}[hx.HashStr(s)%10]
+	scan := func(dst interface{}) (err error) {
+		if format == "" {
+			_, err = fmt.Sscan(s, dst)
+		} else {
+			_, err = fmt.Sscanf(s, format, dst)
+		}
 		return
 	}
-	if pi := hx.Try(func() { _, e2 = fmt.Sscan(s, bf) }); pi != nil {
+	if pi := hx.Try(func() { e1 = scan(z) }); pi != nil {
+		c.Violate("panic", fmt.Sprintf("Sscan(%q) %s: %s panic %q", s, format, pi.Class, pi.Text), "")
 		return
 	}
+	if pi := hx.Try(func() { e2 = scan(bf) }); pi != nil {
+		return
+	}
+	s = fmt.Sprintf("%s [%s]", s, format)
 	c.Count("scan_compared_with_math_big", 1)
 	if (e1 == nil) != (e2 == nil) {
 		c.Violate("scan-language-differs", fmt.Sprintf("Sscan(%q): accepted=%v, *big.Float accepted=%v (%v / %v)", s, e1 == nil, e2 == nil, e1, e2), "")
